@@ -576,12 +576,21 @@ def coq_max_term(case, name, order, ins_rows):
     return s
 
 
-def rule_check(case, ins_rows, idx, tbl=None, tol=1e-12):
-    """the documented maximisation rule, re-implemented from fit.inside; returns a list of
-    (node, message) for every node whose chosen index breaks it.  Ties within tol are accepted."""
+LOG_LO = math.log(1e-250)
+
+
+def rule_check(case, ins_rows, idx, tbl=None, tol=1e-12, info=None, lo=None):
+    """the documented maximisation rule, re-implemented from fit.inside and ALWAYS evaluated in log space
+    (log inside + sum of scipy logpmf), so that nothing can underflow in the reference; returns a list of
+    (node, message) for every node whose chosen index breaks it.  Ties within tol are accepted.
+    lo (linear-space runs only): premise of the property -- a node is judged only if every edge's largest
+    likelihood on its slice exceeds lo and so does the winning score AFTER dividing every edge vector by that
+    maximum (which is what the unchanged algorithm does, so with these representable it cannot underflow at
+    the winner); other nodes are counted in info["outside_premise"]."""
     d = case["ts"]
-    tbl = tbl if tbl is not None else pmf_table(case)
     lin = case["space"] == LIN
+    if lin or tbl is None:
+        tbl = pmf_table(dict(case, space=LOG))
     n = len(d["nodes_time"])
     fixed = [bool(f) for f in d["nodes_flags"]]
     par_edges = {}
@@ -589,13 +598,19 @@ def rule_check(case, ins_rows, idx, tbl=None, tol=1e-12):
         par_edges.setdefault(c, []).append((k, p))
     bad = []
     G = len(case["grid"])
+
+    def lg(x):
+        if lin:
+            return math.nan if math.isnan(x) else (math.log(x) if x > 0 else -math.inf)
+        return x
     for u in range(n):
         if fixed[u]:
             continue
         if not (0 <= idx[u] < G):
             bad.append((u, "index %r off the grid" % (idx[u],)))
             continue
-        iv = ins_rows[u]
+        iv = [lg(x) for x in ins_rows[u]]
+        edge_max = []
         if u not in par_edges:
             sc = list(iv)
             m = G - 1
@@ -606,26 +621,64 @@ def rule_check(case, ins_rows, idx, tbl=None, tol=1e-12):
                 continue
             sc = []
             for t in range(m + 1):
-                if lin:
-                    v = iv[t]
-                    for k, p in par_edges[u]:
-                        v = v * tbl[k][idx[p]][t]
-                else:
-                    v = iv[t]
-                    for k, p in par_edges[u]:
-                        v = v + tbl[k][idx[p]][t]
+                v = iv[t]
+                for k, p in par_edges[u]:
+                    v = v + tbl[k][idx[p]][t]
                 sc.append(v)
+            edge_max = [max(tbl[k][idx[p]][: idx[p] + 1]) for k, p in par_edges[u]]
         if any(math.isnan(x) for x in sc):
             continue
         best = max(sc)
+        if best == -math.inf:
+            continue
+        # what the unchanged algorithm holds at the winner: every edge vector divided by its own maximum
+        best_std = best - sum(edge_max)
+        if lin and lo is not None and (best_std <= lo or any(x <= lo for x in edge_max)):
+            if info is not None:
+                info["outside_premise"] = info.get("outside_premise", 0) + 1
+            continue
         got = sc[idx[u]]
-        if lin:
-            ok = got >= best * (1 - tol) - 1e-300
-        else:
-            ok = got >= best - tol * (abs(best) + 1.0) or (best == -math.inf)
+        ok = got >= best - tol * (abs(best) + 1.0)
         if not ok:
-            bad.append((u, "index %d has score %r but index %d has %r" % (idx[u], got, sc.index(best), best)))
+            bad.append((u, "index %d has log-score %r but index %d has %r" % (idx[u], got, sc.index(best), best)))
     return bad
+
+
+def multiparent_family(rng):
+    """hand-built 2-4 tree family: node u = (0,1) (no mutations below it) has a DIFFERENT parent on each
+    interval, each parent edge carrying many mutations; parents P_i = (u, a_i), root R = (P_i, b_i)"""
+    k = rng.randint(2, 4)
+    L = float(k)
+    ns = 4
+    u = ns
+    P = [ns + 1 + i for i in range(k)]
+    R = ns + 1 + k
+    times = [0.0] * ns + [1.0] + [round(2.0 + 0.3 * i + 0.2 * rng.random(), 3) for i in range(k)] + [6.0]
+    edges = [[0.0, L, u, 0], [0.0, L, u, 1]]
+    for i in range(k):
+        l, r = float(i), float(i + 1)
+        a, b = (2, 3) if i % 2 == 0 else (3, 2)
+        edges += [[l, r, P[i], u], [l, r, P[i], a], [l, r, R, P[i]], [l, r, R, b]]
+    d = {"L": L, "nodes_time": times, "nodes_flags": [1] * ns + [0] * (k + 2), "edges": edges, "sites": [], "mutations": []}
+    return canon(d)
+
+
+def heavy_parent_counts(rng, d, lo=50, hi=300):
+    """lo-hi mutations on every parent edge of the non-sample nodes that have >= 2 distinct parents, none elsewhere
+    below them; a few mutations on other edges"""
+    pars = {}
+    for _l, _r, p, c in d["edges"]:
+        pars.setdefault(c, set()).add(p)
+    multi = {c for c, ps in pars.items() if len(ps) >= 2 and not d["nodes_flags"][c]}
+    counts = []
+    for _l, _r, p, c in d["edges"]:
+        if c in multi:
+            counts.append(rng.randint(lo, hi))
+        elif p in multi:
+            counts.append(0)
+        else:
+            counts.append(rng.choice([0, 0, 1, 2]))
+    return counts, len(multi)
 
 
 def grid_index(grid, times):
